@@ -19,6 +19,7 @@ def run_sweep(chk, orch, oracle, make_wl, n_quick=10, n_round=32, crash_share=0.
         rounds += 1
         n = n_quick if quick else n_round
         jobs = {}
+        two_phase = {}
         for k in range(n):
             spec, opts = make_wl(chk.rng, k if rounds == 1 else None)
             cell = common.random_cell(chk.rng) if (k > 0 or rounds > 1) else dict(common.GOLDEN_CELL)
@@ -31,7 +32,7 @@ def run_sweep(chk, orch, oracle, make_wl, n_quick=10, n_round=32, crash_share=0.
                 # a workload may also pin its fault (a kill at a stage-relative point its structure is aimed at)
                 fn = "scenarios:crash_resume"
                 a["fault"] = dict(forced)
-                a["resume"] = {}
+                a["resume"] = dict(a["fault"].pop("resume", None) or {})
             elif chk.rng.random() < crash_share:
                 fn = "scenarios:crash_resume"
                 if chk.rng.random() < 0.5:
@@ -41,9 +42,27 @@ def run_sweep(chk, orch, oracle, make_wl, n_quick=10, n_round=32, crash_share=0.
                     a["fault"] = {"kind": "kill", "stage": chk.rng.choice(["collect", "resolve", "construct", "construct", "merge", "merge", "cleanup"]),
                                   "frac": round(chk.rng.random(), 3), "phase": chk.rng.choice(["before", "after"])}
                 a["resume"] = {}
+            if forced and forced.get("resume_hashseed") is not None:
+                # the killed run and the resumed run are different processes with different string hash seeds: first half
+                # here, second half (below) by the fork server of the other seed, on the same run directory
+                a["fault"].pop("resume_hashseed", None)
+                a["phase"] = "crash"
+                two_phase[k] = forced["resume_hashseed"]
             jid = orch.submit(cell["hashseed"], fn, a, tag=k)
             jobs[k] = (spec, opts, cell, fn, a)
-        for jid, k, r in orch.results():
+        collected = list(orch.results())
+        resubmitted = set()
+        for jid, k, r in collected:
+            if k in two_phase and r.get("ok") and r["res"].get("rundir"):
+                spec, opts, cell, fn, a = jobs[k]
+                a2 = dict(a, phase="resume", rundir=r["res"]["rundir"], resume_hashseed=two_phase[k])
+                jobs[k] = (spec, opts, cell, fn, a2)
+                orch.submit(two_phase[k], fn, a2, tag=k)
+                resubmitted.add(k)
+                chk.faults["resume_under_another_hash_seed"] += 1
+        if resubmitted:
+            collected = [c for c in collected if c[1] not in resubmitted] + list(orch.results())
+        for jid, k, r in collected:
             spec, opts, cell, fn, a = jobs[k]
             if not r.get("ok"):
                 chk.harness_error(r.get("err"))
